@@ -272,3 +272,58 @@ def generic_scalar_guard(ctx, ss, k=6, tol=None):
             ctx.violation(f"generic code: f64 values that are neither table constants, settings, the Gamma variate nor exactly representable short "
                           f"numbers are widened into the user's scalar type: {bad[:4]}", small, observed=bad)
 
+
+
+def returned_finite(ctx, s, named_bits, exact_mags, what="sample"):
+    """`named_bits`: name -> bit pattern(s) returned by the implementation; `exact_mags`: name -> exact magnitude (Fraction) of the
+    quantity. A value that is an ordinary number in exact arithmetic (1e-250 < |.| < 1e250) must come back finite; False = do not
+    go on with this sample (a violation has been recorded, or the value is legitimately out of range)."""
+    lo, hi = Fraction(1, 10 ** 250), Fraction(10 ** 250)
+    for name, bits in named_bits.items():
+        if finite([bits] if isinstance(bits, str) else bits):
+            continue
+        mag = exact_mags.get(name)
+        if mag is not None and lo < abs(mag) < hi:
+            ctx.violation(f"{what}: returned {name} is not a finite number although its exact value is {float(mag):.6e} (well-conditioned point)",
+                          S.small_req(s), expected=float(mag), observed=bits if isinstance(bits, str) else "non-finite")
+        else:
+            ctx.count(f"nonfinite_{name}_out_of_f64_range_skipped")
+        return False
+    return True
+
+
+def _log10(fr):
+    fr = abs(fr)
+    return (math.log10(fr.numerator) - math.log10(fr.denominator)) if fr > 0 else -1e9
+
+
+def nonfinite_verdict(ctx, s, fields=("u", "v", "jac")):
+    """call when a returned value is not finite and the sample would be skipped: if the exact quantities at the implementation's
+    own Feynman parameters are ordinary numbers at a well-conditioned point, the non-finite value is a violation, not a skip"""
+    a = s["impl"]
+    xb = (a.get("log") or {}).get("momtrop_feynman_parameter")
+    if not xb or not finite(xb):
+        return
+    x = fr_list(xb)
+    if any(t <= 0 for t in x):
+        return
+    ex = exact_quantities(s, x)
+    if ex is None or ex["det"] <= 0 or ex["V"] <= 0 or ex["kappa"] is None:
+        return
+    nl = s["routing"]["L"]
+    if tol_cond(nl, min(ex["cond"], ex["cond_s"]), ex["kappa"]) > Fraction(1, 1000):
+        return
+    mags = {"u": ex["det"], "v": ex["V"]}
+    for f in fields:
+        if f in ("u", "v") and not finite([a[f]]):
+            returned_finite(ctx, s, {f: a[f]}, mags)
+            return
+    if "jac" in fields and not finite([a["jac"]]) and "built" in s and finite([s["built"]["cached"]]) and b2f(s["built"]["cached"]) != 0:
+        D = s["case"]["D"]
+        dod = b2f(s["built"]["dod"])
+        lj = math.log10(abs(b2f(s["built"]["cached"]))) - D / 2.0 * _log10(ex["det"]) - dod * _log10(ex["V"])
+        if abs(lj) < 250:
+            ctx.violation(f"returned jacobian is not a finite number although normalisation U^(-D/2) V^(-dod) ~ 1e{lj:.0f} at a well-conditioned point",
+                          S.small_req(s), expected=f"~1e{lj:.0f}", observed=a["jac"])
+        else:
+            ctx.count("nonfinite_jacobian_out_of_f64_range")
